@@ -54,7 +54,8 @@ class World(object):
 
     def __init__(self, variant, tid0, units):
         self.allow_kept = variant.endswith('+kept')
-        variant = variant.replace('+kept', '')
+        self.allow_cancel = variant.endswith('+cancel')
+        variant = variant.replace('+kept', '').replace('+cancel', '')
         self.variant, self.units = variant, units
         # another connection of the same application, made first and left in the middle of a reply: its receive
         # state is its own
@@ -107,7 +108,7 @@ class World(object):
         if kind == 'req':
             i = len(self.reqs)
             unit = self.units[i % len(self.units)]
-            rec = dict(unit=unit, addr=0x10 + i, events=[], wire_tid=None, after_loss=not self.connected)
+            rec = dict(unit=unit, addr=0x10 + i, events=[], wire_tid=None, after_loss=not self.connected, d=None)
             self.reqs.append(rec)
             n0 = len(self.tr.writes)
             if len(ev) > 1 and ev[1] == 'object':
@@ -133,6 +134,7 @@ class World(object):
                 rec['events'].append(('err', f.type.__name__))
                 if retry:
                     self._apply(('req',))       # the usual retry idiom: issue the request again from the errback
+            rec['d'] = d
             d.addCallbacks(lambda r, rec=rec: rec['events'].append(('ok', getattr(r, 'transaction_id', None), tuple(getattr(r, 'registers', ())))),
                            failed)
         elif kind in ('rep', 'dup'):
@@ -157,6 +159,11 @@ class World(object):
             self.p.dataReceived(rest)
             if k2 == 'rh':
                 self.delivered.add(i)
+        elif kind == 'cancel':
+            # the application gives up waiting for one request (Deferred.cancel / addTimeout); its reply, if it still
+            # comes, is dropped and nobody else is disturbed
+            self.reqs[ev[1]]['cancelled'] = True
+            self.reqs[ev[1]]['d'].cancel()
         elif kind == 'close':
             self.closed_locally = True
             self.p.close()                      # the application closes the client; the transport then reports the loss
@@ -175,13 +182,14 @@ class World(object):
         return adu.build(self.framing(), r['unit'], body, tid=r['wire_tid'] or 0)
 
     def outstanding(self):
-        return [i for i, r in enumerate(self.reqs) if not r['events'] and not r['after_loss'] and i not in self.delivered]
+        # a cancelled request is still outstanding at the device: its reply comes (in order, on a serial line)
+        return [i for i, r in enumerate(self.reqs) if (not r['events'] or r.get('cancelled')) and not r['after_loss'] and i not in self.delivered]
 
     def canon(self):
         tm = self.p.transaction
         pend = tuple(sorted(tm.transactions)) if isinstance(tm.transactions, dict) else len(tm.transactions)
         return (self.connected, self.closed_locally, self.partial is not None, self.partial_used, self.p._connected, tm.tid, pend,
-                tuple((r['wire_tid'], tuple(r['events']), r['after_loss'], i in self.delivered, r.get('retry', False), r.get('kept', False), r.get('again', False)) for i, r in enumerate(self.reqs)),
+                tuple((r['wire_tid'], tuple(r['events']), r['after_loss'], i in self.delivered, r.get('retry', False), r.get('kept', False), r.get('again', False), r.get('cancelled', False)) for i, r in enumerate(self.reqs)),
                 bytes(self.p.framer._buffer), len(self.escaped))
 
 
@@ -192,6 +200,10 @@ def menu(w, max_out, max_req):
         ev.append(('req',))
         if w.connected and not any(r.get('retry') for r in w.reqs):
             ev.append(('req', 'retry'))
+        if w.connected and w.allow_cancel and not any(r.get('cancelled') for r in w.reqs):
+            for i in out:
+                if not w.reqs[i]['events']:
+                    ev.append(('cancel', i))
         if w.connected and w.allow_kept and w.kept is None:
             ev.append(('req', 'object'))
         if w.connected and w.allow_kept and w.kept is not None and not any(r.get('again') for r in w.reqs):
@@ -228,7 +240,7 @@ def menu(w, max_out, max_req):
 
 
 def check(acc, w, hist, cfgname, units_class):
-    wit = dict(variant=w.variant + ('+kept' if w.allow_kept else ''), tid0=hist_tid0[0], units=list(w.units), history=[list(e) for e in hist])
+    wit = dict(variant=w.variant + ('+kept' if w.allow_kept else '') + ('+cancel' if w.allow_cancel else ''), tid0=hist_tid0[0], units=list(w.units), history=[list(e) for e in hist])
     last = hist[-1][0] if hist else 'init'
 
     def bad(what, msg):
@@ -244,6 +256,10 @@ def check(acc, w, hist, cfgname, units_class):
         bad('id-reuse', 'outstanding requests share a transaction id: %r' % (tids,))
     for i, r in enumerate(w.reqs):
         oks = [e for e in r['events'] if e[0] == 'ok']
+        if r.get('cancelled'):
+            if r['events'][:1] != [('err', 'CancelledError')] or len(r['events']) > 1:
+                bad('double-fire', 'the cancelled request %d shows %r' % (i, r['events']))
+            continue
         if len(r['events']) > 1:
             bad('double-fire', 'the deferred of request %d fired %d times: %r' % (i, len(r['events']), r['events']))
         for e in oks:
@@ -307,6 +323,8 @@ def run(tier, seed):
     shards.append(('tcp-class', 0, (1,), max_out, depth))
     shards.append(('tcp+kept', 0, (1, 2), 3, 7 if tier == 'quick' else 9))      # the application keeps a request object and submits it twice
     shards.append(('rtu+kept', 0, (1,), 3, 7 if tier == 'quick' else 9))
+    shards.append(('tcp+cancel', 0, (1,), 3, 6 if tier == 'quick' else 8))     # the application cancels one pending request
+    shards.append(('rtu+cancel', 0, (1,), 3, 6 if tier == 'quick' else 8))
     acc = par.run_shards(shard, shards)
     he = None if acc.n.get('states', 0) > 200 else 'vacuous: too few states'
     return dict(acc=acc, level=LEVEL, harness_error=he,
